@@ -9,6 +9,11 @@ library; the compiled model runs the same cycle on the canonical snapshot of the
 document. Include targets are served from generated `file:` documents in a private temp dir
 (no network). Link *texts* are compared by what they designate (resolved with the
 implementation's own get_section_by_path); path text arithmetic is C14's business.
+
+The snapshots carry every attribute of Sections and Properties but the ids; the oracle works on
+these, the model on their projection `narrow` (the attributes Model/Merge.lean has). Variants of
+the three model operations on the implementation side (`finalize:sec`, `clean:sec`,
+`reload:<format>[-file]`) are mapped to finalize / clean / reload for the model.
 """
 import atexit
 import copy
@@ -54,32 +59,104 @@ def private_dir():
 # ----------------------------------------------------------------------------- generation
 SAFE = {"string": ["a", "b", "x y", "A"], "int": [1, 2, 3, 0, -1], "float": [1.0, 2.0, 1.5, -0.5],
         "boolean": [True, False]}
+# further dtypes whose values every save/load format keeps as they are (rich cases only)
+SAFE_RICH = dict(SAFE, **{
+    "text": ["a", "some text", "T"], "url": ["http://a.b/c", "file:///x/y"], "person": ["Ann B", "a"],
+    "date": [m.dt.date(2020, 1, 2), m.dt.date(2021, 12, 28), m.dt.date(987, 6, 5)],
+    "time": [m.dt.time(12, 30, 0), m.dt.time(1, 2, 3)],
+    "datetime": [m.dt.datetime(2020, 1, 2, 12, 30, 0), m.dt.datetime(2021, 12, 28, 1, 2, 3)]})
+NONASCII = ["sé", "名前", "ä b", "Ω"]        # names of generated objects
+OWN_NONASCII = ["öwn", "自分"]                          # own children of linking Sections
+CARDS = [[1, 4], [None, 3], [2, None], [0, 12], [1, 10]]             # never (n, n): C01/C02/C09's business
+RELOADS = ["reload", "reload:xml-file", "reload:json", "reload:json-file", "reload:yaml",
+           "reload:yaml-file"]
 
 
-def simple_prop(rng, name):
-    """Values the XML round trip keeps as they are (anything else is C01's business)."""
-    dtype = rng.choice(["string", "string", "int", "float", "boolean"])
+def new_uuid(rng):
+    """The id (= the name) of an object that is created without a name; chosen by the generator
+    so that link texts can be written down and a case replays identically."""
+    import uuid
+    return str(uuid.UUID(int=rng.getrandbits(128), version=4))
+
+
+def simple_prop(rng, name, rich=None):
+    """Values the XML round trip keeps as they are (anything else is C01's business).
+
+    rich = None: name, dtype, values, unit, definition only (the original generator);
+    rich = {"unc": bool}: every attribute a copy has to carry (reference, value origin,
+    dependency, dependency value, value cardinality, the other dtypes; an uncertainty only where
+    no save/load follows: a numeric uncertainty is loaded as text, C01's known finding)."""
+    pool = SAFE_RICH if rich is not None else SAFE
+    if rich is not None and rng.random() < 0.4:
+        dtype = rng.choice(["text", "url", "person", "date", "time", "datetime"])
+    else:
+        dtype = rng.choice(["string", "string", "int", "float", "boolean"])
     n = rng.choice([1, 1, 2, 3, 0])       # 0: a Property without values (an empty Property is falsy)
-    return {"name": name, "dtype": dtype, "values": [m.to_tag(v) for v in rng.sample(SAFE[dtype], min(n, len(SAFE[dtype])))],
-            "unit": rng.choice([None, None, "mV"]), "unc": None,
-            "def": rng.choice([None, None, "pdef"]), "ref": None, "origin": None}
+    out = {"name": name, "dtype": dtype, "values": [m.to_tag(v) for v in rng.sample(pool[dtype], min(n, len(pool[dtype])))],
+           "unit": rng.choice([None, None, "mV"]), "unc": None,
+           "def": rng.choice([None, None, "pdef"]), "ref": None, "origin": None}
+    if rich is not None:
+        pick = (lambda vals: rng.choice(vals) if rng.random() < 0.35 else None)
+        out.update(ref=pick(["pref", "R 2"]), origin=pick(["rig A", "o"]),
+                   dep=pick(["dep1", "dep2"]), depv=pick(["on", "1"]), vcard=pick(CARDS))
+        if rich.get("unc"):
+            out["unc"] = m.unc_tag(pick([0.5, 1.5, 2.0, 0.0]))
+    return out
 
 
-def simplify(rng, sec):
-    sec["props"] = [simple_prop(rng, p["name"]) for p in sec["props"]]
+def simplify(rng, sec, rich=None):
+    sec["props"] = [simple_prop(rng, p["name"], rich) for p in sec["props"]]
     for c in sec["secs"]:
-        simplify(rng, c)
+        simplify(rng, c, rich)
     return sec
 
 
-def plain_sec(rng, name, depth, names=None):
+def enrich_sec(rng, s):
+    """Section attributes besides definition/reference that a copy has to carry."""
+    if rng.random() < 0.25:
+        s["repo"] = True                  # the URL of a (pre-loaded, generated) terminology file
+    if rng.random() < 0.25:
+        s["scard"] = rng.choice(CARDS)
+    if rng.random() < 0.25:
+        s["pcard"] = rng.choice(CARDS)
+    for c in s["secs"]:
+        enrich_sec(rng, c)
+
+
+def plain_sec(rng, name, depth, names=None, rich=None):
     """A Section tree without links and without definition/reference noise unless asked."""
-    s = simplify(rng, m.new_sec(rng, name, depth, attrs=False))
+    s = simplify(rng, m.new_sec(rng, name, depth, attrs=False), rich)
     if rng.random() < 0.4:
         s["def"] = rng.choice(["Def one", "other text"])
     if rng.random() < 0.3:
         s["ref"] = rng.choice(["ref A", "x"])
+    if rich is not None:
+        enrich_sec(rng, s)
     return s
+
+
+def restyle(rng, secs, p_un, p_na, pool=NONASCII):
+    """Rename generated objects: `unnamed` (created without a name: the library names them after
+    their id) with probability p_un, a non-ASCII name with probability p_na. Sibling names stay
+    unique per kind. Applied before any link text is written."""
+    restyle_list(rng, secs, p_un, p_na, pool)
+    for s in secs:
+        restyle_list(rng, s["props"], p_un, p_na, pool)
+        restyle(rng, s["secs"], p_un, p_na, pool)
+
+
+def restyle_list(rng, objs, p_un, p_na, pool):
+    used = set(o["name"] for o in objs)
+    for o in objs:
+        r = rng.random()
+        if r < p_un:
+            o["name"] = new_uuid(rng)
+            o["unnamed"] = True
+        elif r < p_un + p_na:
+            cand = [n for n in pool if n not in used]
+            if cand:
+                o["name"] = rng.choice(cand)
+                used.add(o["name"])
 
 
 def all_paths(secs, pre=()):
@@ -111,15 +188,52 @@ def rel_text(lp, tp):
     return "../" * (len(lp) - k) + "/".join(tp[k:])
 
 
+OPS_BASE = [["finalize", "clean"], ["finalize", "clean", "reload"],
+            ["finalize", "clean", "finalize", "clean"],
+            ["finalize", "clean", "reload", "finalize", "clean", "reload"],
+            ["finalize", "finalize", "clean", "clean"]]
+# longer and irregular histories: a clean with nothing to undo, a repeated clean, three cycles,
+# a save/load before the first finalize
+OPS_MORE = [["clean", "finalize", "clean"], ["finalize", "clean", "clean", "reload"],
+            ["finalize", "clean", "finalize", "clean", "finalize", "clean", "reload"],
+            ["reload", "finalize", "clean", "reload"],
+            ["finalize", "clean", "reload", "reload", "finalize", "finalize", "clean"]]
+
+
+def gen_ops(rng):
+    ops = list(rng.choice(OPS_BASE if rng.random() < 0.7 else OPS_MORE))
+    # the save/load in between: every format, text and file entry points
+    if rng.random() < 0.5:
+        ops = [rng.choice(RELOADS) if o == "reload" else o for o in ops]
+    # the same resolution / cleaning through the Section level interface (`Section.merge()` without
+    # an argument resolves the stored link or include; `Section.clean()` is what Document.clean
+    # runs on every Section), called on the linking Sections in document order
+    if rng.random() < 0.12:
+        ops = [{"finalize": "finalize:sec", "clean": "clean:sec"}.get(o, o) if rng.random() < 0.7 else o
+               for o in ops]
+    return ops
+
+
 def gen_case(rng, tier):
-    doc = [plain_sec(rng, n, rng.choice([1, 2, 2, 3])) for n in rng.sample(m.NAMES, rng.choice([2, 3, 4]))]
+    ops = gen_ops(rng)
+    has_reload = any(o.startswith("reload") for o in ops)
+    rich = {"unc": not has_reload} if rng.random() < 0.4 else None
+    rich_f = {"unc": False} if rich is not None else None     # include files go through XML
+    p_un = 0.3 if rng.random() < 0.4 else 0.0
+    p_na = 0.25 if rng.random() < 0.15 else 0.0
+    doc = [plain_sec(rng, n, rng.choice([1, 2, 2, 3]), rich=rich) for n in rng.sample(m.NAMES, rng.choice([2, 3, 4]))]
     files = {}
     for key in rng.sample(["f1", "f2"], rng.choice([0, 1, 1, 2])):
-        files[key] = [plain_sec(rng, n, rng.choice([1, 2])) for n in rng.sample(m.NAMES, rng.choice([1, 2]))]
+        files[key] = [plain_sec(rng, n, rng.choice([1, 2]), rich=rich_f) for n in rng.sample(m.NAMES, rng.choice([1, 2]))]
+    if p_un or p_na:
+        restyle(rng, doc, p_un, p_na)
+        for key in sorted(files):
+            restyle(rng, files[key], p_un, p_na)
     paths = all_paths(doc)
     rng.shuffle(paths)
     linkers = []
     targets = []
+    ftargets = []
     want = rng.choice([1, 1, 2, 3])
     any_clash = False
     for lp in paths:
@@ -129,22 +243,37 @@ def gen_case(rng, tier):
             continue
         use_file = files and rng.random() < 0.4
         if use_file:
-            key = rng.choice(sorted(files))
-            tps = all_paths(files[key])
-            tp = rng.choice(tps)
+            if ftargets and rng.random() < 0.3:
+                key, tp = rng.choice(ftargets)          # two includes of the same Section
+            else:
+                key = rng.choice(sorted(files))
+                tps = all_paths(files[key])
+                tp = rng.choice(tps)
             tnode = node(files[key], tp)
         else:
             cands = [q for q in paths if diverge(q, lp) and all(diverge(q, x) for x in linkers)]
             if not cands:
                 continue
-            tp = rng.choice(cands)
+            shared = [q for q in targets if q in cands]
+            tp = rng.choice(shared) if shared and rng.random() < 0.3 else rng.choice(cands)
             tnode = node(doc, tp)
         l = node(doc, lp)
+        if rng.random() < 0.06:
+            # a wide target: 10 and more children (two-digit positions, names that sort as text)
+            have = set(c["name"] for c in tnode["secs"])
+            for k in range(12 - len(have)):
+                tnode["secs"].append(plain_sec(rng, "k%d" % k, 0, rich=rich_f if use_file else rich))
+            havep = set(q["name"] for q in tnode["props"])
+            for k in range(11 - len(havep)):
+                tnode["props"].append(simple_prop(rng, "q%d" % k, rich_f if use_file else rich))
         # own children of the linking Section: other names, or (clash variant) some shared names
         clash = rng.random() < 0.3
         any_clash = any_clash or clash
-        l["secs"] = [plain_sec(rng, n, 1) for n in rng.sample(OWN_NAMES, rng.choice([0, 1, 2]))]
-        l["props"] = [simple_prop(rng, n) for n in rng.sample(OWN_NAMES, rng.choice([0, 1, 2]))]
+        l["secs"] = [plain_sec(rng, n, 1, rich=rich) for n in rng.sample(OWN_NAMES, rng.choice([0, 1, 2]))]
+        l["props"] = [simple_prop(rng, n, rich) for n in rng.sample(OWN_NAMES, rng.choice([0, 1, 2]))]
+        if p_un or p_na:
+            restyle(rng, l["secs"], p_un, p_na, OWN_NONASCII)
+            restyle_list(rng, l["props"], p_un, p_na, OWN_NONASCII)
         if clash:
             for c in tnode["secs"][:rng.choice([1, 2])]:
                 # same name and type (another type is C13's known finding); content: a pruned
@@ -157,11 +286,13 @@ def gen_case(rng, tier):
                         pp["values"] = pp["values"][:1]
                 if rng.random() < 0.3:
                     own["def"] = "own def"
+                forget_ids(own)
                 l["secs"].append(own)
             for q in tnode["props"][:rng.choice([0, 1])]:
                 own = copy.deepcopy(q)
                 own["values"] = own["values"][:1]
                 own["def"] = None
+                own.pop("unnamed", None)
                 l["props"].append(own)
         if use_file:
             form = rng.randrange(3)
@@ -171,6 +302,7 @@ def gen_case(rng, tier):
                 l["incl"] = "FILE:%s#/%s" % (key, "/".join(tp))
             else:
                 l["incl"] = "FILE:%s#%s" % (key, "/".join(tp))
+            ftargets.append((key, tp))
         else:
             l["link"] = "/" + "/".join(tp) if rng.random() < 0.5 else rel_text(lp, tp)
             targets.append(tp)
@@ -182,12 +314,26 @@ def gen_case(rng, tier):
         rng.shuffle(paths)
     if not linkers:
         return None
-    ops = rng.choice([["finalize", "clean"], ["finalize", "clean", "reload"],
-                      ["finalize", "clean", "finalize", "clean"],
-                      ["finalize", "clean", "reload", "finalize", "clean", "reload"],
-                      ["finalize", "finalize", "clean", "clean"]])
-    return {"stream": "cycle", "doc": doc, "files": files, "ops": ops,
+    case = {"stream": "cycle", "doc": doc, "files": files, "ops": ops,
             "linkers": [list(p) for p in linkers], "clash": any_clash}
+    if rng.random() < 0.1:
+        case["twin"] = True
+    if rich is not None and rng.random() < 0.6:
+        # attributes of the Document itself ("any other part of the document")
+        case["docattrs"] = {"author": rng.choice([None, "A. Author"]), "version": rng.choice([None, "1.2"]),
+                            "date": rng.choice([None, "2020-01-02"]), "repo": rng.random() < 0.4}
+    return case
+
+
+def forget_ids(spec):
+    """An own child made from a copy of the target's spec: the name stays (for an `unnamed`
+    original that is its id), the id does not (two objects with one id are refused by the
+    writers: unique ids are a validation error)."""
+    spec.pop("unnamed", None)
+    for q in spec["props"]:
+        q.pop("unnamed", None)
+    for c in spec["secs"]:
+        forget_ids(c)
 
 
 # ----------------------------------------------------------------------------- implementation
@@ -224,12 +370,58 @@ class time_limit(object):
         return False
 
 
-def build_doc(secs):
+def repo_url():
+    """The URL used as `repository` of generated Sections / Documents: a generated terminology
+    file of this process that is loaded before any object refers to it (the repository setter
+    then finds it in the cache and starts no loader thread; no network)."""
+    if _PRIVATE.get("repo_pid") != os.getpid():
+        import odml
+        from odml import terminology
+        path = os.path.join(private_dir(), "repo_terms.xml")
+        rdoc = odml.Document()
+        odml.Section(name="term", type="t", parent=rdoc)
+        odml.save(rdoc, path)
+        url = "file://" + path
+        terminology.load(url)
+        _PRIVATE.update(repo_pid=os.getpid(), repo=url)
+    return _PRIVATE["repo"]
+
+
+def card_in(c):
+    return None if c is None else tuple(c)
+
+
+def card_out(c):
+    if c is None:
+        return None
+    try:
+        return [x if (x is None or isinstance(x, int)) else {"w": repr(x)} for x in c]
+    except TypeError:
+        return {"w": repr(c)}
+
+
+def build_doc(secs, attrs=None):
     import odml
     doc = odml.Document()
+    if attrs:
+        doc = odml.Document(author=attrs.get("author"), version=attrs.get("version"),
+                            date=attrs.get("date"),
+                            repository=repo_url() if attrs.get("repo") else None)
     for s in secs:
         build_tree(s, doc)
     return doc
+
+
+def build_prop(spec, parent):
+    import odml
+    vals = [m.from_tag(t) for t in spec["values"]]
+    unnamed = spec.get("unnamed")
+    return odml.Property(name=None if unnamed else spec["name"], oid=spec["name"] if unnamed else None,
+                         values=vals if vals else None, dtype=spec["dtype"], unit=spec["unit"],
+                         uncertainty=None if spec["unc"] is None else spec["unc"] / 2.0,
+                         definition=spec["def"], reference=spec["ref"], value_origin=spec["origin"],
+                         dependency=spec.get("dep"), dependency_value=spec.get("depv"),
+                         val_cardinality=card_in(spec.get("vcard")), parent=parent)
 
 
 def build_tree(spec, parent, urls=None):
@@ -238,10 +430,15 @@ def build_tree(spec, parent, urls=None):
     if incl and urls is not None and incl.startswith("FILE:"):
         key, _, rest = incl[5:].partition("#")
         incl = urls[key] + (("#" + rest) if "#" in spec["incl"] else "")
-    sec = odml.Section(name=spec["name"], type=spec["type"], definition=spec["def"],
-                       reference=spec["ref"], parent=parent, link=spec.get("link"), include=incl)
+    unnamed = spec.get("unnamed")     # created without a name: the library names it after its id
+    sec = odml.Section(name=None if unnamed else spec["name"], oid=spec["name"] if unnamed else None,
+                       type=spec["type"], definition=spec["def"],
+                       reference=spec["ref"], parent=parent, link=spec.get("link"), include=incl,
+                       repository=repo_url() if spec.get("repo") else None,
+                       sec_cardinality=card_in(spec.get("scard")),
+                       prop_cardinality=card_in(spec.get("pcard")))
     for p in spec["props"]:
-        m.build_prop(p, sec)
+        build_prop(p, sec)
     for c in spec["secs"]:
         build_tree(c, sec, urls)
     return sec
@@ -273,16 +470,79 @@ def canon_include(sec, keys):
         return {"w": "unresolvable include %r: %s" % (inc, fw.exc_name(exc))}
 
 
+def canon_repo(url):
+    if url is None:
+        return None
+    return "REPO" if url == _PRIVATE.get("repo") else {"w": "repository %r" % (url,)}
+
+
+def snap_prop(p):
+    """Every attribute of a Property but its id (a copy has to carry them all)."""
+    out = m.snap_prop(p)
+    out.update(dep=m.text_out(p.dependency), depv=m.text_out(p.dependency_value),
+               vcard=card_out(p.val_cardinality))
+    return out
+
+
 def snap_sec(sec, keys):
+    """Every attribute of a Section but its id; link / include by what they designate."""
     return {"name": sec.name, "type": sec.type, "def": m.text_out(sec.definition),
             "ref": m.text_out(sec.reference), "link": canon_link(sec),
             "incl": canon_include(sec, keys), "merged": bool(sec.is_merged),
-            "props": [m.snap_prop(p) for p in sec.properties],
+            "repo": canon_repo(sec.repository), "scard": card_out(sec.sec_cardinality),
+            "pcard": card_out(sec.prop_cardinality),
+            "props": [snap_prop(p) for p in sec.properties],
             "secs": [snap_sec(c, keys) for c in sec.sections]}
 
 
 def snap_doc(doc, keys):
     return [snap_sec(s, keys) for s in doc.sections]
+
+
+def snap_attrs(doc):
+    """The Document's own attributes (not its id)."""
+    return {"author": m.text_out(doc.author), "version": m.text_out(doc.version),
+            "date": None if doc.date is None else str(doc.date), "repo": canon_repo(doc.repository)}
+
+
+NARROW_SEC = ("name", "type", "def", "ref", "link", "incl", "merged")
+NARROW_PROP = ("name", "dtype", "values", "unit", "unc", "def", "ref", "origin")
+
+
+def narrow(secs):
+    """The part of a snapshot the Lean model talks about (Model/Merge.lean's Sec / Prop)."""
+    return [dict([(k, s[k]) for k in NARROW_SEC],
+                 props=[dict((k, q[k]) for k in NARROW_PROP) for q in s["props"]],
+                 secs=narrow(s["secs"])) for s in secs]
+
+
+def linking_sections(doc):
+    """The Sections with a stored link or include, in document (itersections) order."""
+    return [s for s in list(doc.itersections(recursive=True))
+            if s.link is not None or s.include is not None]
+
+
+def reload_doc(doc, op, tmp):
+    """Save and load again: `reload` XML text, `reload:<format>[-file]` the other formats / the
+    file entry points odml.save / odml.load."""
+    import odml
+    from odml.tools.odmlparser import ODMLWriter, ODMLReader
+    kind = op.partition(":")[2] or "xml"
+    fmt = kind.split("-")[0].upper()
+    if kind.endswith("-file"):
+        _PRIVATE["n"] += 1
+        path = os.path.join(tmp, "r%d.%s" % (_PRIVATE["n"], fmt.lower()))
+        try:
+            odml.save(doc, path, fmt)
+            return odml.load(path, fmt, show_warnings=False)
+        finally:
+            for cand in (path, path + "." + fmt.lower()):
+                try:
+                    os.remove(cand)
+                except OSError:
+                    pass
+    text = ODMLWriter(fmt).to_string(doc)
+    return ODMLReader(fmt, show_warnings=False).from_string(text)
 
 
 # ----------------------------------------------------------------------------- oracle helpers
@@ -356,9 +616,19 @@ class C12(fw.Check):
     ]
     rule = ("documents of 2-4 top-level Section trees (depth <= 3) with 1-3 linking Sections "
             "(links absolute or relative, includes url / url#/abs / url#rel served from generated "
-            "file: documents), pairwise disjoint and disjoint from their targets; linking Sections "
+            "file: documents), pairwise disjoint and disjoint from their targets, two linking "
+            "Sections may share a target; linking Sections "
             "with own children of other names (restoration law) or sharing names with the target "
-            "(30%, first sentence only); cycles finalize/clean, with save+load and repeated cycles. "
+            "(30%, first sentence only); objects created without a name (named after their id) and "
+            "non-ASCII names anywhere (targets, their children, linking Sections, own children, "
+            "included files); every attribute of Sections (repository, cardinalities) and Properties "
+            "(reference, value origin, dependency, uncertainty, value cardinality, all dtypes) "
+            "observed on the copies; targets with 10+ children; attributes of the Document itself; "
+            "histories finalize/clean with repeated and irregular cycles (clean with nothing to "
+            "undo, clean twice, three cycles, load before the first finalize), save+load as XML / "
+            "JSON / YAML text and files, Document level and Section level entry points, a second "
+            "document of the same description in the same process; the included documents are "
+            "looked at again after the history. "
             "Non-trivial = at least one target has children; distinct = distinct canonical JSON.")
 
     def generate(self, tier, rng):
@@ -374,7 +644,6 @@ class C12(fw.Check):
     # -- implementation ------------------------------------------------------
     def impl(self, case):
         import odml
-        from odml.tools.odmlparser import ODMLWriter, ODMLReader
         tmp = private_dir()
         _PRIVATE["n"] += 1
         urls, keys, written = {}, {}, []
@@ -384,53 +653,93 @@ class C12(fw.Check):
             written.append(path)
             urls[key] = "file://" + path
             keys[urls[key]] = key
-        doc = odml.Document()
-        for s in case["doc"]:
-            build_tree(s, doc, urls)
+        def fresh():
+            d = build_doc([], case.get("docattrs"))
+            for spec in case["doc"]:
+                build_tree(spec, d, urls)
+            return d
+        doc = fresh()
+        # a second document from the same description, built now and used after the first one in
+        # the same process: same include URLs (one cached terminology document serves both)
+        twin = fresh() if case.get("twin") else None
         from odml import terminology
-        files = {}
-        for key, url in urls.items():
-            term = terminology.load(url)
-            files[key] = snap_doc(term, keys) if term is not None else None
-        states = [{"op": "initial", "outcome": "ok", "doc": snap_doc(doc, keys)}]
-        for op in case["ops"]:
-            outc = "ok"
-            try:
-                with time_limit(OP_SECONDS):
-                    if op == "finalize":
-                        doc.finalize()
-                    elif op == "clean":
-                        doc.clean()
-                    elif op == "reload":
-                        text = ODMLWriter("XML").to_string(doc)
-                        doc = ODMLReader("XML", show_warnings=False).from_string(text)
-            except Exception as exc:
-                outc = fw.exc_name(exc)
-            if outc == "OpTimeout":
-                # a resolution that does not terminate (e.g. a link that came to designate an
-                # ancestor): do not walk the (possibly huge) document, report and stop
-                states.append({"op": op, "outcome": outc, "doc": []})
-                break
-            try:
-                with time_limit(OP_SECONDS):
-                    states.append({"op": op, "outcome": outc, "doc": snap_doc(doc, keys)})
-            except OpTimeout:
-                states.append({"op": op, "outcome": "OpTimeout", "doc": []})
-                break
+
+        def snap_files():
+            out = {}
+            for key, url in urls.items():
+                term = terminology.load(url)
+                out[key] = snap_doc(term, keys) if term is not None else None
+            return out
+        files = snap_files()
+
+        def run(doc):
+            states = [{"op": "initial", "outcome": "ok", "doc": snap_doc(doc, keys), "attrs": snap_attrs(doc)}]
+            for op in case["ops"]:
+                outc = "ok"
+                try:
+                    with time_limit(OP_SECONDS):
+                        if op == "finalize":
+                            doc.finalize()
+                        elif op == "clean":
+                            doc.clean()
+                        elif op == "finalize:sec":
+                            for sec in linking_sections(doc):
+                                sec.merge()
+                        elif op == "clean:sec":
+                            for sec in linking_sections(doc):
+                                sec.clean()
+                        elif op.startswith("reload"):
+                            doc = reload_doc(doc, op, tmp)
+                        else:
+                            raise ValueError("unknown op %r" % (op,))
+                except Exception as exc:
+                    outc = fw.exc_name(exc)
+                if outc == "OpTimeout":
+                    # a resolution that does not terminate (e.g. a link that came to designate an
+                    # ancestor): do not walk the (possibly huge) document, report and stop
+                    states.append({"op": op, "outcome": outc, "doc": []})
+                    break
+                try:
+                    with time_limit(OP_SECONDS):
+                        states.append({"op": op, "outcome": outc, "doc": snap_doc(doc, keys),
+                                       "attrs": snap_attrs(doc)})
+                except OpTimeout:
+                    states.append({"op": op, "outcome": "OpTimeout", "doc": []})
+                    break
+            return states
+        states = run(doc)
+        twin_states = run(twin) if twin is not None and states[-1]["outcome"] != "OpTimeout" else None
+        # the included Sections live in the cached terminology documents: look at them again
+        files_after = None
+        try:
+            with time_limit(OP_SECONDS):
+                files_after = snap_files()
+        except OpTimeout:
+            pass
         for path in written:
             try:
                 os.remove(path)
             except OSError:
                 pass
-        return {"states": states, "files": files}
+        out = {"states": states, "files": files, "files_after": files_after}
+        if twin_states is not None:
+            out["twin_states"] = twin_states
+        return out
 
     # -- model ---------------------------------------------------------------
+    @staticmethod
+    def model_ops(ops):
+        """The model knows finalize / clean / reload (the identity): the Section level entry
+        points and the save/load formats are variants of these on the implementation side."""
+        return [o.split(":")[0] for o in ops]
+
     def model_requests(self, case, obs):
-        init = obs["states"][0]["doc"]
-        if not (m.modelable(init) and m.modelable(obs["files"])) or \
-                any(v is None for v in obs["files"].values()):
+        init = narrow(obs["states"][0]["doc"])
+        mfiles = dict((k, None if v is None else narrow(v)) for k, v in obs["files"].items())
+        if not (m.modelable(init) and m.modelable(mfiles)) or \
+                any(v is None for v in mfiles.values()):
             return []
-        return [{"op": "cycle", "doc": init, "files": obs["files"], "ops": case["ops"]}]
+        return [{"op": "cycle", "doc": init, "files": mfiles, "ops": self.model_ops(case["ops"])}]
 
     def compare(self, case, obs, answers):
         if not answers:
@@ -447,16 +756,18 @@ class C12(fw.Check):
             if (ms["out"] == "ok") != (st["outcome"] == "ok"):
                 out.append("step %d %s: model %s, implementation %s" % (i, st["op"], ms["out"], st["outcome"]))
                 break
-            if ms["doc"] != st["doc"]:
+            if ms["doc"] != narrow(st["doc"]):
                 out.append("step %d %s: documents differ: model %s implementation %s"
-                           % (i, st["op"], fw.canon(ms["doc"])[:700], fw.canon(st["doc"])[:700]))
+                           % (i, st["op"], fw.canon(ms["doc"])[:700], fw.canon(narrow(st["doc"]))[:700]))
                 break
         linkers = [l["path"] for l in a["linkers"]]
         if sorted(linkers) != sorted(case["linkers"]):
             out.append("linking Sections: model %s, generator %s" % (linkers, case["linkers"]))
+        init = narrow(obs["states"][0]["doc"])
+        mfiles = dict((k, narrow(v)) for k, v in obs["files"].items())
         for info in a["linkers"]:
-            l = lookup(obs["states"][0]["doc"], info["path"])
-            t = target_of(l, obs["states"][0]["doc"], obs["files"]) if l else None
+            l = lookup(init, info["path"])
+            t = target_of(l, init, mfiles) if l else None
             if t is None or info.get("target") != t:
                 out.append("target of %s: model %s, harness %s" % (info["path"], info.get("target"), t))
             elif info["noClash"] != self.no_clash(l, t) or info["noFill"] != self.no_fill(l, t):
@@ -480,8 +791,22 @@ class C12(fw.Check):
             return []
         out = []
         files = obs["files"]
-        states = obs["states"]
         lpaths = case["linkers"]
+        self.check_history(obs["states"], lpaths, files, out)
+        if obs.get("twin_states"):
+            # the same clauses for the second document of the same description
+            second = []
+            self.check_history(obs["twin_states"], lpaths, files, second)
+            out += [f if f.startswith("restore-fill:") else "second document: " + f for f in second]
+        # "changes neither the referenced Section ...": the included Sections (the cached
+        # terminology documents) after the whole history
+        after = obs.get("files_after")
+        if after is not None and after != files:
+            out.append("include: a referenced Section of an included file changed: %s"
+                       % sorted(k for k in files if after.get(k) != files[k]))
+        return out
+
+    def check_history(self, states, lpaths, files, out):
         for i in range(1, len(states)):
             prev, cur = states[i - 1], states[i]
             op = cur["op"]
@@ -491,19 +816,23 @@ class C12(fw.Check):
             if cur["outcome"] != "ok":
                 out.append("%s raised %s" % (op, cur["outcome"]))
                 break
-            if op == "finalize":
+            kind = op.split(":")[0]     # finalize:sec / clean:sec / reload:<format> are variants
+            if kind in ("finalize", "clean") and cur.get("attrs") != prev.get("attrs"):
+                out.append("%s: the attributes of the Document itself changed from %s to %s"
+                           % (kind, prev.get("attrs"), cur.get("attrs")))
+            if kind == "finalize":
                 self.check_finalize(prev["doc"], cur["doc"], lpaths, files, out)
-            elif op == "clean":
+            elif kind == "clean":
                 # the state this clean has to restore: the one before the finalize(s) it undoes
+                # (a clean with nothing to undo: the state before it)
                 j = i - 1
-                while j > 0 and states[j]["op"] in ("finalize", "clean"):
+                while j > 0 and states[j]["op"].split(":")[0] in ("finalize", "clean"):
                     j -= 1
                 self.check_clean(states[j]["doc"], cur["doc"], lpaths, files, out)
-            elif op == "reload":
+            elif kind == "reload":
                 if cur["doc"] != prev["doc"]:
                     out.append("reload: the saved and re-loaded document differs from the cleaned one")
                 self.check_saved(cur["doc"], states[0]["doc"], lpaths, files, out)
-        return out
 
     def check_finalize(self, before, after, lpaths, files, out):
         for p in lpaths:
@@ -597,6 +926,13 @@ class C12(fw.Check):
                 if names & tnames:
                     out.append("saved: the file saved after clean contains referenced content %s of %s"
                                % (sorted(names & tnames), p))
+                # ... under whatever name: the linking Section shared no child name with its target,
+                # so every child it did not have before the resolution came with the referenced content
+                for kind in ("secs", "props"):
+                    extra = [c["name"] for c in l[kind] if c["name"] not in set(x["name"] for x in l0[kind])]
+                    if extra:
+                        out.append("saved: the file saved after clean contains children %s of %s that are "
+                                   "not its own (content that came with the resolution)" % (extra, p))
 
     def finding_key(self, case, obs, failure):
         if failure.startswith("restore-fill:"):
@@ -617,8 +953,15 @@ class C12(fw.Check):
                     nontrivial = True
         except Exception:
             pass
-        return ("cycle:%s:%s:%s" % ("+".join(sorted(kinds)), "clash" if case["clash"] else "noclash",
-                                    len(case["ops"])), nontrivial)
+        extra = ""
+        if '"unnamed"' in fw.canon([case["doc"], case["files"]]):
+            extra += ":unnamed"
+        if any(":" in o for o in case["ops"]):
+            extra += ":variant-ops"
+        if case.get("twin"):
+            extra += ":twin"
+        return ("cycle:%s:%s:%s%s" % ("+".join(sorted(kinds)), "clash" if case["clash"] else "noclash",
+                                      len(case["ops"]), extra), nontrivial)
 
 
 if __name__ == "__main__":
